@@ -51,12 +51,60 @@ class Model:
         self.entries: dict[int, tuple[Value, Any]] = {}
 
 
+_SWAP = {'TA': 'TA2', 'TA2': 'TA', 'Node': 'NodeX', 'NodeX': 'Node', 'TB': 'TC', 'TC': 'TB', 'TD': 'TA', 'TN': 'TN1',
+         'TN1': 'TN', 'TN2': 'TN', 'TF': 'TA', 'TZ': 'TA', 'TR': 'TA'}
+_NAME_OF = None
+
+
+def _type_name(cls):
+    global _NAME_OF
+    if _NAME_OF is None:
+        _NAME_OF = {get_type(n): n for n in list(_SWAP)}
+    return _NAME_OF.get(cls)
+
+
+def _reclass(task, new_name):
+    return get_type(new_name)(ident=task.ident, tag=task.tag, deps=task.deps, opt=task.opt)
+
+
+def _swap_first_dep(v, done):
+    """Copy of a parameter value with the first nested task replaced by a task of another class with the same fields."""
+    if hasattr(type(v), '_lt') and hasattr(v, 'cache_key'):
+        name = _type_name(type(v))
+        if not done[0] and name in _SWAP:
+            done[0] = f'{name}->{_SWAP[name]}'
+            return _reclass(v, _SWAP[name])
+        return v
+    if isinstance(v, tuple):
+        return tuple(_swap_first_dep(x, done) for x in v)
+    if isinstance(v, list):
+        return [_swap_first_dep(x, done) for x in v]
+    if hasattr(v, 'items'):
+        return {k: _swap_first_dep(x, done) for k, x in v.items()}
+    return v
+
+
+def lookalikes(task):
+    """(description, task) pairs: never-run tasks that differ from `task` only in a class identity."""
+    out = []
+    name = _type_name(type(task))
+    if name is None:
+        return out
+    done = [None]
+    deps = _swap_first_dep(task.deps, done)
+    if done[0]:
+        out.append((f'the class of a nested dependency: {done[0]}', type(task)(ident=task.ident, tag=task.tag, deps=deps, opt=task.opt)))
+    if name in ('TA', 'TA2', 'Node', 'NodeX'):
+        out.append((f'its own class: {name}->{_SWAP[name]}', _reclass(task, _SWAP[name])))
+    return out
+
+
 class HistoryCheck(Check):
     level = 'exploration'
     quick_runs = 800
     thorough_runs = 8000
     providers = ['local', 'fsspec-local', 'fsspec-mem', 'none']
-    types = [('TA', 4), ('TB', 2), ('TD', 3), ('TN', 2), ('TP', 2), ('TN1', 1)]
+    types = [('TA', 4), ('TB', 2), ('TD', 3), ('TN', 2), ('TP', 2), ('TN1', 1), ('TZ', 1)]
     rich = False
     max_ops = 10
     rule = ('histories of up to 10 operations (run / run with bust_cache / uncache / cached_tasks / probe-run / new Lab) over a generated '
@@ -270,6 +318,20 @@ class HistoryCheck(Check):
             if got != want:
                 return [O.V(self.id, 'is_cached-differs', f'{where}: is_cached(node {i} {ref.tname(i)}) is {got}, the reference map says {want}',
                             provider=provider, got=got, cacheable=ref.cacheable(i))]
+        # look-alikes of cached tasks - tasks that were never run and differ from a cached one only in the
+        # class of a nested dependency, or in their own class (same name, other module) - are not cached
+        for i in sorted(model)[:3]:
+            for what, twin in lookalikes(originals.get(i, 1)):
+                try:
+                    got = bool(lab.is_cached(twin))
+                except Exception as ex:
+                    return [O.V(self.id, 'is_cached-raises', f'{where}: is_cached(look-alike of node {i}) raised {type(ex).__name__}: '
+                                f'{str(ex)[:120]}', provider=provider)]
+                probes['look-alike-checked'] = probes.get('look-alike-checked', 0) + 1
+                if got:
+                    return [O.V(self.id, 'look-alike-cached', f'{where}: node {i} ({ref.tname(i)}) is cached; a task that was never run and '
+                                f'differs from it only in {what} is reported cached as well: {twin!r:.300}', provider=provider,
+                                what=what.split(':')[0])]
         # cached_tasks: all types, or a drawn subset of types
         type_names = sorted({ref.tname(i) for i in ref.nodes})
         asked = type_names if ops.chance(2, 3) else [t for t in type_names if ops.chance(1, 2)]
